@@ -9,6 +9,7 @@ import (
 	"sync"
 
 	"github.com/ory/keto/internal/relationtuple"
+	"github.com/ory/keto/internal/x/vhook"
 )
 
 type contextKey string
@@ -29,9 +30,11 @@ func (s *stringSet) addNoDuplicate(el fmt.Stringer) bool {
 	defer s.l.Unlock()
 
 	if _, found := s.m[el.String()]; found {
+		vhook.Emit("visited.hit", s, el.String())
 		return true
 	}
 	s.m[el.String()] = struct{}{}
+	vhook.Emit("visited.add", s, el.String())
 	return false
 }
 
